@@ -801,6 +801,8 @@ class SuitBitfield(SuitObject):
         value = []
         bitsum = 0
         bitval = cls.deserialize_cbor(cbstr)
+        if not isinstance(bitval, int) or isinstance(bitval, bool):
+            raise ValueError(f"Expected integer bit field, received: {bitval}")
         for bit in range(cls._bit_length):
             bitmask = 1 << bit
             if bitval & bitmask:
